@@ -147,6 +147,31 @@ def replay(ob):
     cfg = ob.get('config') or {}
     unit = ob['unit']
     odl, np = _odl()
+    if not unit.startswith('element/') and any(k in ob.get('name', '') for k in ('no copy', 'wraps', 'shares')):
+        r = replay(dict(ob, unit='element/wrapping', name=''))        # obligations about wrapping without copy: the element-factory checks (strided views) first
+        if r.get('reproduced'):
+            return r
+    if unit.startswith('legacy-pspace/'):
+        pr = []
+        r2 = odl.rn(2)
+        for sp in (r2 ** 2, r2 ** 3, (r2 ** 2) ** 2, (r2 ** 2) ** 3, (r2 ** 3) ** 2):
+            rng = np.random.default_rng(8)
+            x = sp.element(rng.uniform(0.5, 2.0, sp.shape))
+            others = [('member', sp.element(rng.uniform(0.5, 2.0, sp.shape))), ('factor element', sp[0].element(rng.uniform(0.5, 2.0, sp[0].shape))), ('scalar', 1.5)]
+            for label, x2 in others:
+                want = np.add(x.asarray(), np.asarray(x2))
+                try:
+                    got = x.ufuncs.add(x2)
+                    out = sp.element()
+                    got2 = x.ufuncs.add(x2, out=out)
+                except Exception as e:
+                    pr.append('%r: x.ufuncs.add(<%s>) raised %s: %s' % (sp, label, type(e).__name__, e))
+                    continue
+                if not np.allclose(got.asarray(), want) or got2 is not out or not np.allclose(out.asarray(), want):
+                    pr.append('%r: x.ufuncs.add(<%s>) = %r (out: %r), NumPy on the arrays gives %r' % (sp, label, got.asarray().tolist(), out.asarray().tolist(), want.tolist()))
+            if not np.allclose(x.ufuncs.sqrt().asarray(), np.sqrt(x.asarray())):
+                pr.append('%r: x.ufuncs.sqrt() differs from NumPy' % (sp,))
+        return {'reproduced': bool(pr), 'detail': '; '.join(pr[:2]) or 'legacy product-space ufuncs agree with NumPy on the arrays natively'}
     if unit.startswith('dispatch/discr'):
         pr = run_discr(cfg.get('method'), cfg.get('out'))
         return {'reproduced': bool(pr), 'detail': '; '.join(pr[:3]) or 'agrees with NumPy natively', 'input': cfg}
@@ -160,6 +185,17 @@ def replay(ob):
         pr = []
         if not np.shares_memory(arr, x.asarray()) or x.asarray() is not arr:
             pr.append('element(arr) of matching dtype / shape does not wrap arr itself')
+        # strided / reversed / transposed views of matching dtype and shape are wrapped without copy, and writes through the element reach the buffer
+        for label, view in (('reversed rows', np.arange(6.0).reshape(2, 3)[::-1]), ('reversed columns', np.arange(6.0).reshape(2, 3)[:, ::-1]),
+                            ('every second column', np.arange(12.0).reshape(2, 6)[:, ::2]), ('transposed', np.arange(6.0).reshape(3, 2).T)):
+            e = sp.element(view)
+            if not np.shares_memory(view, e.asarray()):
+                pr.append('element(<%s view>) copies instead of wrapping the array' % label)
+                continue
+            base = view.base.copy()
+            np.sqrt(sp.one() * 4.0, out=e)
+            if np.array_equal(view.base, base):
+                pr.append('np.sqrt(x, out=element(<%s view>)) did not write into the caller\'s buffer' % label)
         if sp.element(x) is not x:
             pr.append('element(x) of a member is not x')
         if sp.element(arr.astype('float32')).dtype != sp.dtype:
